@@ -103,3 +103,70 @@ pub fn max_block_depth(prog: &GProg) -> usize {
     }
     d
 }
+
+/// Scoped names all of whose defining stanzas come before all stanzas that read them, with no
+/// stanza doing both.  For such a name strict order and lazy evaluation see the same set of
+/// definitions at every read, so "not defined" does not depend on the evaluation order.
+/// (Shorthand bodies are not looked into: a program whose shorthands read scoped names gets the
+/// empty set.)
+pub fn definitions_first(prog: &GProg) -> std::collections::BTreeSet<String> {
+    use std::collections::{BTreeMap, BTreeSet};
+    let mut defs: BTreeMap<String, BTreeSet<usize>> = BTreeMap::new();
+    let mut reads: BTreeMap<String, BTreeSet<usize>> = BTreeMap::new();
+    for it in &prog.items {
+        if let Item::Shorthand { attrs, .. } = it {
+            let mut scoped = false;
+            for a in attrs {
+                if let Some(v) = &a.value {
+                    walk_expr(v, &mut |x| {
+                        if matches!(x, Expr::Scoped { .. }) {
+                            scoped = true;
+                        }
+                    });
+                }
+            }
+            if scoped {
+                return BTreeSet::new();
+            }
+        }
+    }
+    for (si, st) in prog.stanzas().enumerate() {
+        walk_stmts(&st.body, 0, &mut |s, _| {
+            match s {
+                Stmt::Let { var: VarRef::Scoped { name, .. }, .. } | Stmt::Var { var: VarRef::Scoped { name, .. }, .. } | Stmt::Set { var: VarRef::Scoped { name, .. }, .. } | Stmt::Node { var: VarRef::Scoped { name, .. }, .. } => {
+                    defs.entry(name.clone()).or_default().insert(si);
+                }
+                _ => {}
+            }
+            for e in stmt_exprs(s) {
+                walk_expr(e, &mut |x| {
+                    if let Expr::Scoped { name, .. } = x {
+                        reads.entry(name.clone()).or_default().insert(si);
+                    }
+                });
+            }
+        });
+    }
+    let mut out = BTreeSet::new();
+    for (name, rs) in &reads {
+        let ds = defs.get(name).cloned().unwrap_or_default();
+        let last_def = ds.iter().max();
+        let first_read = rs.iter().min().unwrap();
+        if last_def.map(|d| d < first_read).unwrap_or(true) {
+            out.insert(name.clone());
+        }
+    }
+    out
+}
+
+/// Is this reference failure one that lazy evaluation has to report as well?
+pub fn failure_binds_lazy(prog: &GProg, re: &crate::interp::RErr) -> bool {
+    if re.kind.order_independent() {
+        return true;
+    }
+    if re.kind == crate::interp::ErrKind::UndefinedScopedVariable {
+        let name = re.msg.split(' ').next().unwrap_or("");
+        return definitions_first(prog).contains(name);
+    }
+    false
+}
